@@ -14,6 +14,12 @@ CLAIMS = {
  "C17": ("Key-hash partition choice is in [1,count] for EVERY hash value and count>=1; round-robin from any cursor (also stale) lands on an existing partition and visits each once; explicit partition ids: malformed length -> error, unknown id -> PartitionNotFound naming the client's id, nothing stored.",
          "hash value arbitrary (stubbed) for the range property; real xxhash32 determinism only in the thorough tier (keys <= 4 bytes, 3 partitions)"),
 }
+CLAIMS.update({
+ "C09": ("Soundness of the permission rules against the documented hierarchy for ~2^45 permission sets per query (all flags and record presences symbolic): poll/send/get_topic/update/delete/purge/create_topic/get_topics are allowed only if a global, stream or topic record OF THE TARGET grants it (so a record of another stream or topic never opens the target); no rule crashes for any combination of records (stream record without topic table). Thorough tier adds monotonicity in the flags, root, and update/delete taking effect.",
+         "real Permissioner::init_permissions_for_user + rule functions over fixed-capacity map models; targets (1,2) quick, (1,1) thorough; where the documentation is silent the oracle sides with the implementation; System-level wiring (every entry point calls the rule) is not covered"),
+ "C14": ("Segment::is_expired is true exactly for a CLOSED segment with a finite expiry whose newest message is older than the expiry, for every timestamp/now/duration; an open segment is full iff size >= max and is never expired; (thorough) the partition names only closed expired segments, never the one being written.",
+         "de-asynced twin; the read of the newest message is summarised (its exactness is C02's subject); clock unit conversion stubbed; deletion I/O and restart clauses not covered"),
+})
 NA = {
  "C12": "quantifies over interleavings of tokio tasks, a background persister and lock hand-offs; Kani/CBMC execute one thread and tokio's primitives do not compile under Kani (catch_unwind ICE) - the sequential obligations it rests on are checked under C01/C04 harnesses, not relabelled",
  "C19": "AES-256-GCM is out of reach for bit-blasting at useful sizes and with the cipher stubbed 'no plaintext in any file' says nothing about the cipher; the call placement lives in System::append_messages/poll_messages which need a full System",
